@@ -24,6 +24,10 @@ pub enum Op {
     Atw { ty: usize, ok: bool, inner: Vec<Inner>, f: bool },
     Slice { kind: u8, ety: usize, n: usize, f: bool }, // kind 0 copy,1 clone,2 str(ety ignored),3 fill_with,4 fill_copy,5 fill_clone,6 fill_default,7 fill_iter
     TFill { ety: usize, n: usize, errat: Option<usize>, iter: bool },
+    /// slice fill with droppable elements; the closure / Clone / iterator panics at index `at` (None = never)
+    PFill { kind: u8, n: usize, at: Option<usize> },
+    /// alloc_try_with / try_alloc_try_with whose initialiser panics
+    PAtw { ty: usize, f: bool },
     AAlloc { sz: usize, al: usize },
     AFree { id: usize },
     AGrow { id: usize, sz: usize, al: usize, zeroed: bool },
@@ -83,6 +87,8 @@ impl Op {
                 errat.map(|e| e.to_string()).unwrap_or("-".into()),
                 b(iter)
             ),
+            Op::PFill { kind, n, at } => format!("pfill kind={} n={} at={}", kind, n, at.map(|e| e.to_string()).unwrap_or("-".into())),
+            Op::PAtw { ty, f } => format!("patw ty={} f={}", ty, b(f)),
             Op::AAlloc { sz, al } => format!("aalloc sz={} al={}", sz, al),
             Op::AFree { id } => format!("afree id={}", id),
             Op::AGrow { id, sz, al, zeroed } => format!("agrow id={} nsz={} nal={} z={}", id, sz, al, b(zeroed)),
@@ -114,6 +120,8 @@ impl Op {
             },
             "slice" => Op::Slice { kind: u("kind")? as u8, ety: u("ety")?, n: u("n")?, f: fb("f") },
             "tfill" => Op::TFill { ety: u("ety")?, n: u("n")?, errat: kv(&toks, "errat").and_then(parse_usize), iter: fb("iter") },
+            "pfill" => Op::PFill { kind: u("kind")? as u8, n: u("n")?, at: kv(&toks, "at").and_then(parse_usize) },
+            "patw" => Op::PAtw { ty: u("ty")?, f: fb("f") },
             "aalloc" => Op::AAlloc { sz: u("sz")?, al: u("al")? },
             "afree" => Op::AFree { id: u("id")? },
             "agrow" => Op::AGrow { id: u("id")?, sz: u("nsz")?, al: u("nal")?, zeroed: fb("z") },
@@ -278,6 +286,7 @@ pub enum Profile {
     Uniform,
     Capacity,
     Sizes,
+    Panics,
 }
 
 pub fn profile_from_str(s: &str) -> Profile {
@@ -290,6 +299,7 @@ pub fn profile_from_str(s: &str) -> Profile {
         "uniform" => Profile::Uniform,
         "capacity" => Profile::Capacity,
         "sizes" => Profile::Sizes,
+        "panics" => Profile::Panics,
         _ => Profile::General,
     }
 }
@@ -358,6 +368,16 @@ pub fn gen_op(r: &mut Rng, prof: Profile, m: usize, uniform: Option<usize>, c: &
             _ => Op::Limit(if r.chance(1, 2) { None } else { Some(c.held_usable + r.range(0, 5000) as usize) }),
         };
     }
+    if prof == Profile::Panics && r.chance(1, 2) {
+        return if r.chance(2, 3) {
+            let n = r.pick(&[0usize, 1, 2, 5, 17, 60, 400]);
+            let at = if n > 0 && r.chance(2, 3) { Some(r.below(n as u64) as usize) } else { None };
+            let kind = r.below(4) as u8;
+            Op::PFill { kind, n, at: if kind == 2 { None } else { at } }
+        } else {
+            Op::PAtw { ty: r.below(types::N_TYPES as u64) as usize, f: r.chance(1, 2) }
+        };
+    }
     let w: [u32; 14] = match prof {
         //                 alloc val atw slice tfill aalloc afree agrow ashrink write reset limit send  (13 = unused)
         Profile::General => [30, 10, 8, 10, 6, 8, 5, 6, 5, 3, 3, 4, 1, 0],
@@ -368,6 +388,7 @@ pub fn gen_op(r: &mut Rng, prof: Profile, m: usize, uniform: Option<usize>, c: &
         Profile::AllocApi => [8, 2, 1, 2, 1, 22, 14, 22, 16, 5, 3, 3, 1, 0],
         Profile::Capacity => [60, 10, 2, 10, 2, 4, 2, 3, 2, 0, 4, 1, 0, 0],
         Profile::Sizes => [40, 2, 2, 25, 8, 10, 0, 8, 2, 0, 1, 2, 0, 0],
+        Profile::Panics => [30, 8, 6, 8, 5, 6, 4, 5, 4, 2, 10, 3, 1, 0],
         Profile::Uniform => unreachable!(),
     };
     let huge = matches!(prof, Profile::Sizes | Profile::Faults | Profile::General);
@@ -550,6 +571,20 @@ fn gen_count(r: &mut Rng, ety: usize, cap_left: usize, overflowy: bool) -> usize
 // executor + oracles
 // ---------------------------------------------------------------------------------------
 
+/// droppable element with a Default impl (for alloc_slice_fill_default); ids 1<<60.. are never reused
+pub struct DefTok(pub u64);
+impl Default for DefTok {
+    fn default() -> Self {
+        DefTok(1 << 60)
+    }
+}
+impl Drop for DefTok {
+    fn drop(&mut self) {
+        let id = self.0;
+        types::DROPS.with(|d| d.borrow_mut().push(id));
+    }
+}
+
 #[derive(Clone, Debug)]
 pub struct Blk {
     pub ptr: usize,
@@ -581,6 +616,9 @@ pub struct Exec<const M: usize> {
     pub cap_budget: Option<usize>,
     pub static_addr: usize,
     pub applied: bool,
+    /// ids of droppable elements that live in arena memory: the arena must never run their destructors
+    pub tok_ranges: Vec<(u64, u64)>,
+    pub tok_seq: u64,
 }
 
 #[derive(Clone, Debug, PartialEq)]
@@ -615,6 +653,8 @@ pub enum Res {
     Err,
     InitErr(Vec<usize>),
     Panic,
+    /// user code panicked after the arena had reserved the space
+    ClosurePanic,
 }
 impl Res {
     fn text(&self) -> String {
@@ -632,6 +672,7 @@ impl Res {
             Res::Err => "err".into(),
             Res::InitErr(v) => format!("ierr in={}", inn(v)),
             Res::Panic => "panic".into(),
+            Res::ClosurePanic => "cpanic".into(),
         }
     }
     fn kind(&self) -> &'static str {
@@ -641,6 +682,7 @@ impl Res {
             Res::Err => "err",
             Res::InitErr(_) => "ierr",
             Res::Panic => "panic",
+            Res::ClosurePanic => "cpanic",
         }
     }
 }
@@ -661,6 +703,8 @@ impl<const M: usize> Exec<M> {
             cap_budget: None,
             static_addr,
             applied: false,
+            tok_ranges: vec![],
+            tok_seq: 0,
         }
     }
 
@@ -1354,6 +1398,121 @@ impl<const M: usize> Exec<M> {
                     }
                 }
             }
+            Op::PFill { kind, n, at } => {
+                // elements with observable destructors: the arena must never run them (C15), and a
+                // panic in the middle of the fill must leave the arena usable (C16)
+                // ids from a range of their own (bit 59 set), 4096 apart
+                self.tok_seq += 1;
+                let base_id = (1u64 << 59) + self.tok_seq * 4096;
+                let b = self.bump.as_ref().unwrap();
+                write!(extra, " esz=8 eal=8").ok();
+                types::clear_drops();
+                let calls = std::cell::Cell::new(0usize);
+                struct CloneTok(u64, std::rc::Rc<std::cell::Cell<(usize, Option<usize>)>>);
+                impl Clone for CloneTok {
+                    fn clone(&self) -> Self {
+                        let (k, at) = self.1.get();
+                        self.1.set((k + 1, at));
+                        if Some(k) == at {
+                            panic!("clone panics");
+                        }
+                        CloneTok(self.0 + 1 + k as u64, self.1.clone())
+                    }
+                }
+                let (r, evs) = galloc::record(|| {
+                    catch_unwind(AssertUnwindSafe(|| -> usize {
+                        match *kind {
+                            0 => b.alloc_slice_fill_with(*n, |i| {
+                                calls.set(calls.get() + 1);
+                                if Some(i) == *at {
+                                    panic!("fill closure panics");
+                                }
+                                Tok(base_id + i as u64)
+                            })
+                            .as_ptr() as usize,
+                            1 => b.alloc_slice_fill_iter((0..*n).map(|i| {
+                                calls.set(calls.get() + 1);
+                                if Some(i) == *at {
+                                    panic!("iterator panics");
+                                }
+                                Tok(base_id + i as u64)
+                            }))
+                            .as_ptr() as usize,
+                            2 => b.alloc_slice_fill_default::<DefTok>(*n).as_ptr() as usize,
+                            _ => b.alloc_slice_fill_with(*n, |i| {
+                                calls.set(calls.get() + 1);
+                                if Some(i) == *at {
+                                    panic!("fill closure panics");
+                                }
+                                Tok(base_id + i as u64)
+                            })
+                            .as_ptr() as usize,
+                        }
+                    }))
+                });
+                let nd = types::DROPS.with(|d| d.borrow().iter().filter(|x| **x >= base_id && **x < base_id + 4096).count());
+                if nd != 0 {
+                    self.fail("C15", "arena-ran-destructor", format!("{} destructors ran inside a slice fill", nd));
+                }
+                match r {
+                    Ok(p) => {
+                        self.apply_events(&evs, op, lim_before);
+                        let tot = 8 * *n;
+                        let expected = unsafe { std::slice::from_raw_parts(p as *const u8, tot).to_vec() };
+                        let id = self.add_block(p, tot, 8, false, expected);
+                        write!(extra, " id={}", id).ok();
+                        self.tok_ranges.push((base_id, base_id + *n as u64));
+                        (Res::Ok(p), evs)
+                    }
+                    Err(_) => {
+                        if calls.get() > 0 {
+                            // the closure ran, so the space was reserved: it stays allocated (leaked), nothing is rewound
+                            self.apply_events(&evs, op, lim_before);
+                            self.tok_ranges.push((base_id, base_id + *n as u64));
+                            (Res::ClosurePanic, evs)
+                        } else {
+                            (Res::Panic, evs)
+                        }
+                    }
+                }
+            }
+            Op::PAtw { ty, f } => {
+                let b = self.bump.as_ref().unwrap();
+                let calls = std::cell::Cell::new(0usize);
+                let (r, evs, rl) = with_ty!(*ty, T => {
+                    let rl = Layout::new::<Result<T, Tok>>();
+                    let (r, evs) = galloc::record(|| catch_unwind(AssertUnwindSafe(|| -> Result<usize, ()> {
+                        let init = || -> Result<T, Tok> { calls.set(calls.get() + 1); panic!("initializer panics") };
+                        if *f {
+                            match b.try_alloc_try_with(init) { Ok(p) => Ok(p as *mut T as usize), Err(_) => Err(()) }
+                        } else {
+                            match b.alloc_try_with(init) { Ok(p) => Ok(p as *mut T as usize), Err(_) => Err(()) }
+                        }
+                    })));
+                    (r, evs, rl)
+                });
+                write!(extra, " sz={} al={}", rl.size(), rl.align()).ok();
+                match r {
+                    Ok(Ok(_)) => {
+                        self.fail("C16", "panicking-initializer-returned", String::new());
+                        (Res::Unit, evs)
+                    }
+                    Ok(Err(())) => {
+                        if calls.get() != 0 {
+                            self.fail("C11", "initializer-ran-without-space", format!("calls={}", calls.get()));
+                        }
+                        (Res::Err, evs)
+                    }
+                    Err(_) => {
+                        if calls.get() > 0 {
+                            self.apply_events(&evs, op, lim_before);
+                            (Res::ClosurePanic, evs)
+                        } else {
+                            (Res::Panic, evs)
+                        }
+                    }
+                }
+            }
             Op::AAlloc { sz, al } => {
                 let lay = Layout::from_size_align(*sz, *al).unwrap();
                 let b = self.bump.as_ref().unwrap();
@@ -1552,6 +1711,12 @@ impl<const M: usize> Exec<M> {
         if let Some((prop, name)) = expect_no_malloc {
             if evs.iter().any(|e| matches!(e, Ev::Malloc { .. })) || !matches!(res, Res::Ok(_) | Res::OkInner(..)) {
                 self.fail(prop, name, format!("{} cap-before={} res={} evt={}", op.to_text(), cap_before, res.text(), evs_to_str(&evs)));
+            }
+        }
+        if matches!(op, Op::Reset | Op::Drop) && !self.tok_ranges.is_empty() {
+            let bad = types::DROPS.with(|d| d.borrow().iter().filter(|x| **x == (1 << 60) || self.tok_ranges.iter().any(|(a, b)| **x >= *a && **x < *b)).count());
+            if bad != 0 {
+                self.fail("C15", "arena-ran-destructor", format!("{} destructors of arena-resident values ran during {}", bad, op.to_text()));
             }
         }
         if let Op::Reset = op {
